@@ -270,10 +270,23 @@ func VH_C09_KRBErrorSurfaces() {
 
 // ---- C11: the client's shared state is used by goroutines without data races or deadlocks -----------------
 
-func vhCacheOp(c *Cache, op int, tkt messages.Ticket, key types.EncryptionKey) {
+// vhUse reads every byte of b the way a caller that was handed b does (plain loads, outside any lock).
+func vhUse(b []byte) []byte {
+	out := make([]byte, 0, len(b))
+	for i := range b {
+		out = append(out, b[i])
+	}
+	return out
+}
+
+func vhCacheOp(c *Cache, op int, tkt messages.Ticket, key types.EncryptionKey, out *[2][]byte) {
 	switch op {
 	case 0:
-		c.getEntry("s")
+		// a caller that is handed a (ticket, key) pair goes on to use it
+		if e, ok := c.getEntry("s"); ok {
+			zzverif.Yield() // ... not necessarily at once: the other goroutine may run in between
+			out[0], out[1] = vhUse(e.Ticket.EncPart.Cipher), vhUse(e.SessionKey.KeyValue)
+		}
 	case 1:
 		now := time.Unix(1700000000, 0)
 		c.addEntry(tkt, now, now, now.Add(time.Hour), now.Add(2*time.Hour), key)
@@ -292,8 +305,18 @@ func VH_C11_CachePair() {
 	c := NewCache()
 	t1, k1 := vhTicket("R", "s"), vhKey()
 	t2, k2 := vhTicket("R", "s"), vhKey()
-	vhCacheOp(c, 1, t1, k1)
-	zzverif.Par(func() { vhCacheOp(c, a, t2, k2) }, func() { vhCacheOp(c, b, t1, k1) })
+	var oa, ob [2][]byte
+	k1v, k2v := append([]byte{}, k1.KeyValue...), append([]byte{}, k2.KeyValue...) // the keys as issued
+	vhCacheOp(c, 1, t1, k1, &oa)
+	zzverif.Par(func() { vhCacheOp(c, a, t2, k2, &oa) }, func() { vhCacheOp(c, b, t1, k1, &ob) })
+	// a pair handed to a caller stays the pair that was issued, whatever the other goroutine does to the cache
+	for _, o := range [][2][]byte{oa, ob} {
+		if o[0] != nil {
+			p1 := zzverif.And(zzverif.EqBytes(o[0], t1.EncPart.Cipher), zzverif.EqBytes(o[1], k1v))
+			p2 := zzverif.And(zzverif.EqBytes(o[0], t2.EncPart.Cipher), zzverif.EqBytes(o[1], k2v))
+			zzverif.Assert("ticket-and-key-handed-out-stay-the-pair-issued", zzverif.Or(p1, p2))
+		}
+	}
 	// whatever is in the cache is a (ticket, key) pair that was added together
 	if e, ok := c.getEntry("s"); ok {
 		p1 := zzverif.And(zzverif.EqBytes(e.Ticket.EncPart.Cipher, t1.EncPart.Cipher), zzverif.EqBytes(e.SessionKey.KeyValue, k1.KeyValue))
